@@ -7,7 +7,7 @@ import numpy
 
 from akext import _lib
 from akext import _mem
-from akext._util import FILENAME, arg_int64, arg_string, _badarg
+from akext._util import FILENAME, arg_int64, arg_string, _badarg, no_pickle
 
 
 def _fn(line):
@@ -27,6 +27,7 @@ def _fieldloc_arg(fieldloc, what):
     return locs, names
 
 
+@no_pickle
 class _Identities(object):
     __slots__ = ("_h", "__weakref__")
     _is64 = None
